@@ -25,7 +25,7 @@ from typing import Any, Protocol
 
 import pyarrow as pa
 
-from harness.common import rpcutil
+from harness.common import httpapps, rpcutil
 from harness.common.lean import s2j
 
 PROPERTY = "C20"
@@ -245,7 +245,7 @@ def build(cfg: dict[str, Any]) -> dict[str, Any]:
     try:
         with warnings.catch_warnings():
             warnings.simplefilter("ignore")
-            app = make_wsgi_app(server, **kw)
+            app = httpapps.track(make_wsgi_app(server, **kw))
     finally:
         pk._create_oidc_discovery = saved
     auth_mw = None
@@ -697,6 +697,13 @@ def random_sequence(cfg: dict[str, Any], rng: Any, targets: list[str]) -> list[l
 
 
 def check_sequence(ctx: Any, cfg: dict[str, Any], steps: list[list[Any]]) -> None:
+    try:
+        _check_sequence(ctx, cfg, steps)
+    finally:
+        httpapps.dispose_all()  # sticky apps keep a reaper thread ticking until told to stop
+
+
+def _check_sequence(ctx: Any, cfg: dict[str, Any], steps: list[list[Any]]) -> None:
     """A request sequence against ONE fresh app instance: every step gets the full K4 + O treatment, and every case carries the
     steps before it so that a replay re-creates the state of the app."""
     h = build(cfg)
@@ -731,6 +738,13 @@ def run_sequences(ctx: Any, cfg: dict[str, Any], n_corpus: int, n_random: int) -
 
 
 def run_cfg(ctx: Any, cfg: dict[str, Any], n_mut: int, full: bool) -> None:
+    try:
+        _run_cfg(ctx, cfg, n_mut, full)
+    finally:
+        httpapps.dispose_all()  # sticky apps keep a reaper thread ticking until told to stop
+
+
+def _run_cfg(ctx: Any, cfg: dict[str, Any], n_mut: int, full: bool) -> None:
     rng = ctx.rng
     h = build(cfg)
     paths = paths_for(cfg, rng, n_mut)
@@ -784,6 +798,7 @@ def run(ctx: Any) -> None:
             p = cfg["pfx"] + rel
             body, bf = body_for(h, cfg, p)
             check_request(ctx, cfg, h, "POST", p, "bad", body, {"body_for": bf})
+        httpapps.dispose_all()
     n_rand = ctx.budget(8, 40)
     for _ in range(n_rand):
         cfgs.append(random_cfg(ctx.rng))
@@ -799,11 +814,23 @@ def run(ctx: Any) -> None:
         run_cfg(ctx, cfg, n_mut, full)
         if ctx.deep and ctx.tier != "thorough" and len(ctx.failures) >= 8 and i >= 3:
             break  # raised-budget search: failing inputs found, no need to exhaust the budget
+    httpapps.dispose_all()
+    import threading
+
+    ctx.note("threads_at_end", threading.active_count())
+    ctx.note("sticky_reaper_threads_at_end", httpapps.reaper_threads())
     ctx.note("configurations", len(cfgs))
     ctx.note("invocation_log_positive_controls", ctx.tags.get("ran:yes", 0))
 
 
 def replay(ctx: Any, case: dict[str, Any]) -> None:
+    try:
+        _replay(ctx, case)
+    finally:
+        httpapps.dispose_all()  # sticky apps keep a reaper thread ticking until told to stop
+
+
+def _replay(ctx: Any, case: dict[str, Any]) -> None:
     _SEEN_KEYS.clear()
     cfg = dict(case["cfg"])
     cfg["methods"] = [tuple(m) for m in case["methods"]]
